@@ -48,6 +48,16 @@ REG = {
         ],
         "trusted_base": ["translator: Gen/Locks.v (linear Lock/Unlock scan per function)", "modelled, not verified: sync.Mutex, goroutine scheduling, io.ReadAll's buffer growth"],
     },
+    "C11": {
+        "assumptions": [
+            "names are wire (Mac Roman) byte strings; the disk holds their UTF-8 decodings; the listing encoder and ReadPath's decoder are inverse on every name (theorem over Base/MacRoman.v's table; the table itself is tied to the library by C07's and this correspondence)",
+            "the default ignore patterns (^\\. and ^@); file contents are small (the size arithmetic is modulo 2^32 as coded)",
+            "info forks are compared by (type, creator, comment); dates (file mtime) are not modelled",
+            "aliases are symbolic links with absolute targets below the file root (as MakeAlias creates them); one level of dereferencing",
+            "os.Rename onto an existing name follows POSIX (file replaces file, folder replaces empty folder, other combinations fail); failures other than not-exist are ignored by the folder-rename branch, as coded",
+        ],
+        "trusted_base": ["std++ gmap", "translator: Gen/FileTypes.v (extension table of hotline/file_types.go)", "modelled, not verified: os.ReadDir order (byte order of names), os.Rename/Symlink/RemoveAll, golang.org/x/text charmap.Macintosh"],
+    },
     "C05": {
         "assumptions": [
             "the governing privilege per request class is fixed by the reference table coq/Auth/GuardSpec.v (from the protocol document's Access lines and the property text; spec/privileges.md)",
